@@ -405,7 +405,7 @@ Fixpoint measure_lines (tol : Q) (prev : bco) (rest : list bco) : bool :=
 Definition id_ok (lnobj : text) (id : text) : bool :=
   is_b36_pair id && negb (text_eqb id ID_NONE) && negb (text_eqb id lnobj).
 
-Definition wf_wchart (tol : Q) (tbl : list Q) (lay : slayout) (dflt : text) (c : wchart) : bool :=
+Definition wf_wchart_with (tol : Q) (tbl : list Q) (lay : slayout) (dflt : text) (c : wchart) (sn : option wsnaps) : bool :=
   match tempo_rows c with
   | [] => false
   | b0 :: rest =>
@@ -418,11 +418,8 @@ Definition wf_wchart (tol : Q) (tbl : list Q) (lay : slayout) (dflt : text) (c :
       && is_b36_pair (w_lnobj c) && negb (text_eqb (w_lnobj c) ID_NONE)
       && id_ok (w_lnobj c) dflt
       && forallb (fun kv => id_ok (w_lnobj c) (fst kv)) (w_samples c)
-      && match tm_snaps tbl (w_bpms c) (map h_off (w_hits c)),
-               tm_snaps tbl (w_bpms c) (map ho_off (w_holds c)),
-               tm_snaps tbl (w_bpms c) (map (fun h => Qred (ho_off h + ho_len h)) (w_holds c)),
-               tm_snaps tbl (w_bpms c) (map bo_off (w_bpms c)) with
-         | Some sh, Some sa, Some st, Some sb =>
+      && match sn with
+         | Some (mkSn sh sa st sb) =>
              let singles := combine (map h_col (w_hits c)) sh in
              let heads := combine (map ho_col (w_holds c)) sa in
              let tails := combine (map ho_col (w_holds c)) st in
@@ -437,6 +434,8 @@ Definition wf_wchart (tol : Q) (tbl : list Q) (lay : slayout) (dflt : text) (c :
                         (combine heads tails)
              (* the three-digit measure field *)
              && forallb (fun o => s_m (snd o) <? 1000) all && forallb (fun s => s_m s <? 1000) sb
-         | _, _, _, _ => false
+         | None => false
          end
   end.
+Definition wf_wchart (tol : Q) (tbl : list Q) (lay : slayout) (dflt : text) (c : wchart) : bool :=
+  wf_wchart_with tol tbl lay dflt c (write_snaps tbl c).
